@@ -577,4 +577,32 @@ theorem preParse_ok (src : Text) :
       rw [h1]
       exact ⟨_, rfl, by intro kind pos h; cases h; exact h3⟩
 
+/-! ### `parse_timestamp` -/
+
+theorem monthDays_ok (year : Int) (ms : List Nat) (h : ∀ m ∈ ms, 1 ≤ m ∧ m ≤ 12) : ∃ r, monthDays year ms = .ok r := by
+  induction ms with
+  | nil => exact ⟨0, rfl⟩
+  | cons m ms ih =>
+    obtain ⟨r, hr⟩ := ih (fun x hx => h x (by simp [hx]))
+    have hm := h m (by simp)
+    have hlt : m - 1 < DAYS_IN_MONTH.length := by simp [DAYS_IN_MONTH]; omega
+    simp only [monthDays, idx_ok DAYS_IN_MONTH (m - 1) hlt, hr]
+    exact ⟨_, rfl⟩
+
+/-- the calendar arithmetic of `parse_timestamp` cannot panic, whatever digits the literal holds -/
+theorem timestampNs_ok (year : Int) (month day : Nat) (tod tzHours : Int) :
+    ∃ r, timestampNs year month day tod tzHours = .ok r := by
+  unfold timestampNs
+  simp only []
+  have hms : ∀ m ∈ (List.range (max 1 (min month 12) - 1)).map (· + 1), 1 ≤ m ∧ m ≤ 12 := by
+    intro m hm
+    simp only [List.mem_map, List.mem_range] at hm
+    obtain ⟨a, ha, rfl⟩ := hm
+    omega
+  obtain ⟨md, hmd⟩ := monthDays_ok year _ hms
+  have hd : 1 ≤ max 1 day := by omega
+  simp only [hmd, usizeSub, hd, if_true]
+  exact ⟨_, rfl⟩
+
+
 end Varpulis.ParserText
